@@ -10,12 +10,18 @@ on anything else ("untranslatable construct at file:line"): a failure is a broke
   Gen/Decorator.lean  effect term of `avoid_zero_division`'s wrapper
   Gen/Effects.lean    store statements (targets and their roots) of every function in the library
   Gen/Fingerprint.lean  normalised-AST hashes of the functions mirrored by hand-written models
+  Gen/HeapImp.lean    statement-level translation of core/heap.py            (tools/translate_imp.py)
+  Gen/SupImp.lean     … of Subgraph.mark_nodes, SupervisedOPF._find_prototypes/fit/predict (tools/translate_fn.py)
+  Gen/SemiImp.lean    … of SemiSupervisedOPF.fit
+  Gen/ClusImp.lean    … of KNNSupervisedOPF._clustering and UnsupervisedOPF._clustering
 """
 import ast
 import decimal
 import hashlib
 import os
 import sys
+
+sys.path.insert(0, os.path.dirname(os.path.abspath(__file__)))
 
 REPO = os.environ.get("VERIF_REPO", "/repo")
 VERIF = os.path.dirname(os.path.dirname(os.path.abspath(__file__)))
@@ -715,6 +721,26 @@ def main():
     fp.append(",\n".join(f'  ("{a}", "{b}")' for a, b in fps))
     fp += ["]", "", "end Opf.Gen"]
     write(os.path.join(GEN, "Fingerprint.lean"), "\n".join(fp) + "\n")
+
+    # statement-level translations (DESIGN §2.1b). A failure here leaves a stub that does not build, so only
+    # the refinement modules (and the properties that list them) lose their obligations; it is reported, not fatal.
+    import translate_imp
+    import translate_fn
+    notes = []
+    for what, err in (("heap", translate_imp.translate_heap(REPO, GEN, consts, write)),):
+        if err:
+            notes.append(f"TRANSLATOR-IMP({what}): {err}")
+    err, fields = translate_fn.translate_supervised(REPO, GEN, consts, write)
+    if err:
+        notes.append(f"TRANSLATOR-IMP(supervised): {err}")
+    err = translate_fn.translate_semi(REPO, GEN, consts, write, fields)
+    if err:
+        notes.append(f"TRANSLATOR-IMP(semi): {err}")
+    err = translate_fn.translate_cluster(REPO, GEN, consts, write)
+    if err:
+        notes.append(f"TRANSLATOR-IMP(cluster): {err}")
+    for n in notes:
+        print(n)
     return 0
 
 
